@@ -113,12 +113,23 @@ func cmdRobust(args []string) {
 					e = robust.NewGcsEnv(store)
 					e.Seed()
 				}
-				if i%25 == 0 {
-					ks := []int{r.Intn(len(robust.BatchParts)), r.Intn(len(robust.BatchParts)), r.Intn(len(robust.BatchParts))}
+				if i%10 == 0 {
+					// 2-4 parts; half of them from the ones that carry a body or a condition
+					pick := func() int {
+						if r.Chance(1, 2) {
+							return 14 + r.Intn(len(robust.BatchParts)-14)
+						}
+						return r.Intn(len(robust.BatchParts))
+					}
+					ks := []int{pick(), pick()}
+					for len(ks) < 4 && r.Chance(1, 2) {
+						ks = append(ks, pick())
+					}
 					rep.Evaluations++
 					rep.OpKinds["gcs batch-vs-alone"]++
-					if v := robust.CheckBatch(store, ks); v != "" {
-						add("gcs:"+store, "batch", fmt.Sprint("batch of parts ", ks), ks, v)
+					abs := []bool{r.Chance(1, 3), r.Chance(1, 3), r.Chance(1, 3), r.Chance(1, 3)}
+					if v := robust.CheckBatch(store, ks, abs); v != "" {
+						add("gcs:"+store, "batch", fmt.Sprint("batch of parts ", ks, " absolute-form ", abs), map[string]any{"parts": ks, "absolute": abs}, v)
 					}
 				}
 			}
